@@ -72,29 +72,29 @@ theorem udp_label_conserve (name : String) (n : NetSt) (l : ULbl) (u : UdpSock) 
 end HL
 
 /-- the ghost-log invariant of the one-UDP-socket system -/
-structure UInv (name : String) (s : HS) : Prop where
+structure UInv (name : String) (s : HdS) : Prop where
   ex   : (s.n.udp? name).isSome
   perm : (HL.udpIds s.n name ++ s.ids).Perm s.started
 
 namespace HL
 
-theorem UInv_step (name : String) (s : HS) (l : ULbl) (hI : UInv name s) : UInv name (US.step name s l) := by
+theorem UInv_step (name : String) (s : HdS) (l : ULbl) (hI : UInv name s) : UInv name (US.step name s l) := by
   obtain ⟨u, hu⟩ := Option.isSome_iff_exists.mp hI.ex
   obtain ⟨h1, h2⟩ := udp_label_conserve name s.n l u hu
   refine ⟨h1, ?_⟩
   have h3 := hI.perm
   rw [udpIds_of_some hu] at h3
-  unfold US.step HS.ids at *
+  unfold US.step HdS.ids at *
   dsimp only at *
   rw [List.map_append, logOf_ids]
   perm_omega h2 h3
 
-theorem UInv_run (name : String) (ls : List ULbl) (s : HS) (hI : UInv name s) : UInv name (US.run name s ls) := by
+theorem UInv_run (name : String) (ls : List ULbl) (s : HdS) (hI : UInv name s) : UInv name (US.run name s ls) := by
   induction ls generalizing s with
   | nil => exact hI
   | cons l rest ih => exact ih _ (UInv_step name s l hI)
 
-theorem US_run_started (name : String) (ls : List ULbl) (s : HS) :
+theorem US_run_started (name : String) (ls : List ULbl) (s : HdS) :
     (US.run name s ls).started = s.started ++ ls.filterMap ULbl.newId? := by
   induction ls generalizing s with
   | nil => simp [US.run]
@@ -105,7 +105,7 @@ theorem US_run_started (name : String) (ls : List ULbl) (s : HS) :
     unfold US.step; dsimp only
     cases hl : l.newId? <;> simp [List.filterMap_cons, hl]
 
-theorem US_run_append (name : String) (a b : List ULbl) (s : HS) :
+theorem US_run_append (name : String) (a b : List ULbl) (s : HdS) :
     US.run name s (a ++ b) = US.run name (US.run name s a) b := by
   simp [US.run, List.foldl_append]
 
